@@ -243,7 +243,25 @@ def enc_stored(v):
 def snapshot(pp):
     top = sorted(([k, enc_stored(v)] for k, v in pp.items() if k != "aberration_coefs"), key=lambda kv: kv[0])
     ab = pp.get("aberration_coefs", {})
-    return {"top": top, "aber": [[k, float(v)] for k, v in ab.items()]}
+    def num(v):
+        try:
+            return float(v)
+        except Exception as e:  # noqa  (only on a broken tree: a value float() rejects got stored)
+            return "<" + base.err_name(e) + ">"
+    return {"top": top, "aber": [[k, num(v)] for k, v in ab.items()] if isinstance(ab, dict) else "<no dict>"}
+
+
+def pretty(snap):
+    """a snapshot with the bit patterns decoded (for the report only)"""
+    def dv(v):
+        if isinstance(v, dict) and "n" in v:
+            return b2f(v["n"])
+        if isinstance(v, dict) and "b" in v:
+            return "<value float() rejects: " + v["b"] + ">"
+        if isinstance(v, dict) and "d" in v:
+            return {k: dv(x) for k, x in v["d"]}
+        return v
+    return {"probe_params": {k: dv(v) for k, v in snap["top"]}, "aberration_coefs": snap["aber"] if isinstance(snap["aber"], str) else dict(snap["aber"])}
 
 
 def flat_items(a):
@@ -318,7 +336,7 @@ def eval_pphist_case(ctx, drv, case):
             if after != before:
                 ctx.pred_fail("pp-rejected-call-left-state", "probe_params: a REJECTED assignment changed the object "
                               "(reported settings and stored coefficients no longer describe one surface)",
-                              {**case, "history": hist[:i + 1]}, observed=after, required=before)
+                              {**case, "history": hist[:i + 1]}, observed=pretty(after), required=pretty(before))
         before = after
     ctx.count()
     nrej = sum(1 for s in steps if s["err"])
@@ -787,8 +805,30 @@ def eval_mergehist_case(ctx, drv, case):
 EVAL = {"pphist": eval_pphist_case, "hstate": eval_hstate_case, "entry": eval_entry_case, "mergehist": eval_mergehist_case}
 
 
+F = lambda x: ["num", "float", float(x)]  # noqa
+
+# literal witnesses, run first on every run: the `_counterexample` of Props/C12.lean (stale top-level report), a
+# rejected-part-way assignment between valid ones on a real ProbePixelated, a zero that overrides a stored value
+LITERALS = [
+    {"stream": "pphist", "real": False, "max_order": 1, "history": [[["defocus", F(100)]], [["C10", F(-200)]]]},
+    {"stream": "pphist", "real": True, "max_order": 5, "history": [
+        [["energy", F(300e3)], ["semiangle_cutoff", F(20)], ["defocus", F(100)]],
+        [["defocus", F(250)], ["astigmatism", ["bad", "word"]]],
+        [["defocus", F(250)], ["defocuss", F(1)]],
+        [["aberration_coefs", {"d": [["defocus", F(300)], ["coma", ["bad", "list"]]]}]],
+        [["astigmatism", F(5)]]]},
+    {"stream": "hstate", "initial": [["defocus", F(120)]], "ops": [
+        {"t": "current", "o": [["defocus", F(0.0)]]}, {"t": "current", "o": [["defocus", ["num", "float", -0.0]]]},
+        {"t": "current", "o": [["C10", ["num", "int", 0]]]}, {"t": "current", "o": [["defocus", ["bad", "word"]]]},
+        {"t": "search_grid", "opt": [["defocus", -100.0, 100.0, 3]], "fixed": [["astigmatism", F(7)]], "pick": 1, "rot": None},
+        {"t": "current", "o": None}]},
+]
+
+
 def run(ctx, drv):
-    n_pp, n_h, n_e, n_m = ctx.n(260, 8000), ctx.n(160, 5000), ctx.n(30, 600), ctx.n(60, 2000)
+    for lit in LITERALS:
+        EVAL[lit["stream"]](ctx, drv, lit)
+    n_pp, n_h, n_e, n_m = ctx.n(260, 8000), ctx.n(160, 5000), ctx.n(30, 240), ctx.n(60, 2000)
     for i in range(n_pp):
         eval_pphist_case(ctx, drv, gen_pphist_case(ctx.rng.fork(300000 + i)))
     for i in range(n_h):
